@@ -67,6 +67,12 @@ fn real_main() -> i32 {
         "C07" => run_engine(&engines::market::engines::C07, &opts),
         "C08" => run_engine(&engines::market::engines::C08, &opts),
         "C18" => run_engine(&engines::c18_evm_total::C18, &opts),
+        "SYS" => run_engine(&engines::sys::SysEngine { id: "SYS" }, &opts),
+        "C01" => run_engine(&engines::sys::SysEngine { id: "C01" }, &opts),
+        "C02" => run_engine(&engines::sys::SysEngine { id: "C02" }, &opts),
+        "C03" => run_engine(&engines::sys::SysEngine { id: "C03" }, &opts),
+        "C04" => run_engine(&engines::sys::SysEngine { id: "C04" }, &opts),
+        "C05" => run_engine(&engines::sys::SysEngine { id: "C05" }, &opts),
         "C20" => run_engine(&engines::c20_identity::C20, &opts),
         "C19" => run_engine(&engines::evmsys::C19, &opts),
         "C17" => run_engine(&engines::c17_evm_diff::C17, &opts),
